@@ -2,6 +2,7 @@ mod conv;
 mod policy;
 mod prog;
 mod props;
+mod scope;
 mod subject;
 mod textcmp;
 
